@@ -286,8 +286,58 @@ inline void yield_point(const char* site)
 
 } // namespace vs
 
-#define RLBOX_USE_CUSTOM_SHARED_LOCK
-#define RLBOX_SHARED_LOCK(name) ::vs::shared_lock_t name
-#define RLBOX_ACQUIRE_SHARED_GUARD(name, ...) ::vs::shared_guard name(__VA_ARGS__)
-#define RLBOX_ACQUIRE_UNIQUE_GUARD(name, ...) ::vs::unique_guard name(__VA_ARGS__)
+#ifndef VS_DEFAULT_LOCKS
+#  define RLBOX_USE_CUSTOM_SHARED_LOCK
+#  define RLBOX_SHARED_LOCK(name) ::vs::shared_lock_t name
+#  define RLBOX_ACQUIRE_SHARED_GUARD(name, ...) ::vs::shared_guard name(__VA_ARGS__)
+#  define RLBOX_ACQUIRE_UNIQUE_GUARD(name, ...) ::vs::unique_guard name(__VA_ARGS__)
+#else
+// RLBox's DEFAULT lock macros stay in force (rlbox_helpers.hpp: a std shared mutex with std::shared_lock / std::unique_lock guards).
+// The pthread rwlock operations they end in are interposed by defining them here: for a managed thread they are
+// scheduling points and the scheduler's own lock state decides who may proceed (exactly one managed thread runs at a
+// time, so the real lock is not needed); any other thread gets the real libc function.
+#  include <dlfcn.h>
+#  include <pthread.h>
+namespace vs {
+using rwfn = int (*)(pthread_rwlock_t*);
+inline rwfn real_rw(const char* name)
+{
+  return reinterpret_cast<rwfn>(dlsym(RTLD_NEXT, name));
+}
+inline int rw_acquire(pthread_rwlock_t* l, bool write)
+{
+  if (g_tid >= 0) {
+    g_sched.acquire(g_tid, l, write);
+    return 0;
+  }
+  static rwfn frd = real_rw("pthread_rwlock_rdlock"), fwr = real_rw("pthread_rwlock_wrlock");
+  return write ? fwr(l) : frd(l);
+}
+inline int rw_release(pthread_rwlock_t* l)
+{
+  if (g_tid >= 0) {
+    bool write;
+    {
+      std::unique_lock<std::mutex> lk(g_sched.m);
+      write = g_sched.locks[l].writer == g_tid;
+    }
+    g_sched.release(g_tid, l, write);
+    return 0;
+  }
+  static rwfn f = real_rw("pthread_rwlock_unlock");
+  return f(l);
+}
+}
+extern "C" {
+int pthread_rwlock_rdlock(pthread_rwlock_t* l) { return vs::rw_acquire(l, false); }
+int pthread_rwlock_wrlock(pthread_rwlock_t* l) { return vs::rw_acquire(l, true); }
+int pthread_rwlock_tryrdlock(pthread_rwlock_t* l) { return vs::rw_acquire(l, false); }
+int pthread_rwlock_trywrlock(pthread_rwlock_t* l) { return vs::rw_acquire(l, true); }
+int pthread_rwlock_timedrdlock(pthread_rwlock_t* l, const struct timespec*) { return vs::rw_acquire(l, false); }
+int pthread_rwlock_timedwrlock(pthread_rwlock_t* l, const struct timespec*) { return vs::rw_acquire(l, true); }
+int pthread_rwlock_clockrdlock(pthread_rwlock_t* l, clockid_t, const struct timespec*) { return vs::rw_acquire(l, false); }
+int pthread_rwlock_clockwrlock(pthread_rwlock_t* l, clockid_t, const struct timespec*) { return vs::rw_acquire(l, true); }
+int pthread_rwlock_unlock(pthread_rwlock_t* l) { return vs::rw_release(l); }
+}
+#endif
 #define MBOX_YIELD(site) ::vs::yield_point(site)
